@@ -262,6 +262,12 @@ func TestProp(t *testing.T) {
 	defer r.Finish(t)
 	r.Rule("rapid-generated histories over the dynamic predicates d/1 and e/2: 0-6 initial clauses (duplicates, clauses with variables, rules whose bodies assert/retract on the predicate being enumerated) and 1-6 steps; a step is one query run to exhaustion: a conjunction of 1-4 goals drawn from {call, retract (fact and Head:-Body forms), asserta, assertz (facts and rules), retractall, clause/2, the same term instance asserted twice, binding a clause variable after the assert, tests, findall}, in 45% of the steps closed by fail (failure-driven loop), so updates happen while calls/retracts on the same predicate are open for backtracking; occasionally abolish. Oracle: the reference database (unique clause identities, per-call snapshots, retract iterating its call-time snapshot and removing by identity). Compared after every step: the answer sequence of the step and the full listing of both predicates through clause/2. For retract backtracking onto a snapshot clause that someone else removed, both readings (skip / succeed without removing) are accepted, consistently for a whole history. Non-trivial: an update to a predicate while a call, retract or clause/2 on it had untried alternatives. Distinct by case.",
 		"the reference database model (DESIGN.md 2.3.1)")
+	if r.Shard() == 0 {
+		if err := diff.OracleSelfTest(); err != nil {
+			t.Fatalf("%v", err)
+		}
+		r.LabelN("oracle_self_test_examples", ref.NExamples())
+	}
 	r.Regress(t)
 	if r.Failed() {
 		return
